@@ -25,6 +25,10 @@ RoutesM == Same("construct") \cup Same("pickle") \cup Same("deepcopy")
            \cup {[r |-> x, from |-> "Molecule", to |-> "Molecule"] : x \in {"concat_e1", "concat_e2"}}
            \cup {[r |-> "join", from |-> "Structure", to |-> "Structure"], [r |-> "join", from |-> "Molecule", to |-> "Molecule"]}
            \cup {[r |-> "ensemble_from", from |-> "Molecule", to |-> "ConformerEnsemble"]}
+           \* an ensemble without atoms and conformers takes everything from what it receives first
+           \cup {[r |-> "extend_empty", from |-> "ConformerEnsemble", to |-> "ConformerEnsemble"],
+                 [r |-> "extend_list_empty", from |-> "Molecule", to |-> "ConformerEnsemble"],
+                 [r |-> "append_empty", from |-> "Molecule", to |-> "ConformerEnsemble"]}
            \* constructors called with the source's own arrays as explicit arguments (coords=, atomic_charges=, weights=)
            \cup {[r |-> "construct_arrays", from |-> k, to |-> k] : k \in {"CartesianGeometry", "Structure", "Molecule", "ConformerEnsemble"}}
            \cup {[r |-> "upcast_arrays", from |-> "Conformer", to |-> "Molecule"], [r |-> "upcast_arrays", from |-> "Structure", to |-> "Molecule"]}
